@@ -34,8 +34,9 @@ var run *vlib.Run
 // ---------- fake registrar ----------
 
 type fakeReg struct {
-	mu     sync.Mutex
-	active []registry.Endpoint
+	mu       sync.Mutex
+	active   []registry.Endpoint
+	inactive []registry.Endpoint
 }
 
 func (f *fakeReg) Registry(ctx context.Context, s *registry.ServantInstance) error   { return nil }
@@ -43,7 +44,7 @@ func (f *fakeReg) Deregister(ctx context.Context, s *registry.ServantInstance) e
 func (f *fakeReg) QueryServant(ctx context.Context, id string) ([]registry.Endpoint, []registry.Endpoint, error) {
 	f.mu.Lock()
 	defer f.mu.Unlock()
-	return append([]registry.Endpoint(nil), f.active...), nil, nil
+	return append([]registry.Endpoint(nil), f.active...), append([]registry.Endpoint(nil), f.inactive...), nil
 }
 func (f *fakeReg) QueryServantBySet(ctx context.Context, id, set string) ([]registry.Endpoint, []registry.Endpoint, error) {
 	return f.QueryServant(ctx, id)
@@ -111,6 +112,7 @@ type epModel struct {
 	blocked     bool  // observed: not in the active list
 	lastProbe   int64 // virtual second of the last probe call seen
 	probes      int
+	away        bool // the registry currently lists it as inactive: not the health rules' matter
 }
 
 type step struct {
@@ -235,6 +237,9 @@ func runScript(id int, r *rand.Rand, nSteps int) {
 		if class == "no-adapter" || strings.HasPrefix(class, "other:no adapter") {
 			run.Violation("P6-calls-fail-outright", "all-blocked", fmt.Sprintf("call %s failed with %q without being attempted on any endpoint (every endpoint blocked: %v)", tok, err, !anyActive()), wit(nil))
 			return false
+		}
+		if target >= 0 && models[target].away {
+			return true
 		}
 		if target >= 0 {
 			m := models[target]
@@ -378,6 +383,54 @@ func runScript(id int, r *rand.Rand, nSteps int) {
 				fmt.Printf("t=%d MODE ep%d %s\n", now(), ep, mode)
 			}
 			eps[ep].setMode(mode)
+		case c == 6 && r.Intn(2) == 0 && nEp >= 3:
+			// the registry moves one endpoint to its inactive list and, two calls later, back: it
+			// returns as a fresh member of the rotation, under the health rules like any other
+			j := r.Intn(nEp)
+			// only an endpoint in good standing (nothing to carry over), and only while another one
+			// stays in rotation (so that the all-blocked rules do not come into play)
+			eps[j].mu.Lock()
+			jmode := eps[j].mode
+			eps[j].mu.Unlock()
+			others := 0
+			for k2, m2 := range models {
+				if k2 != j && !m2.blocked {
+					others++
+				}
+			}
+			if jmode != "ok" || models[j].blocked || models[j].failSince != 0 || models[j].streak != 0 || others == 0 {
+				continue
+			}
+			trace = append(trace, step{Op: "registry-away-and-back", Ep: j})
+			all := append([]registry.Endpoint(nil), reg.active...)
+			var rest, gone []registry.Endpoint
+			for _, f := range all {
+				if f.Host == eps[j].host {
+					gone = append(gone, f)
+				} else {
+					rest = append(rest, f)
+				}
+			}
+			reg.mu.Lock()
+			reg.active, reg.inactive = rest, gone
+			reg.mu.Unlock()
+			models[j].away = true
+			_ = cl.SP.VerifRefresh()
+			for k := 0; k < 2; k++ {
+				if !doCall() {
+					return
+				}
+			}
+			reg.mu.Lock()
+			reg.active, reg.inactive = all, nil
+			reg.mu.Unlock()
+			_ = cl.SP.VerifRefresh()
+			if !activeSet()[eps[j].key] {
+				run.Inconclusive(fmt.Sprintf("script %d: an endpoint the registry lists as active again is not in the active list after the refresh", id))
+				return
+			}
+			models[j].away = false
+			run.Add("registry_away_and_back_steps", 1)
 		case c < 8:
 			d := []int64{1, 2, 9, 10, 12, 34, 35, 40, 70}[r.Intn(9)]
 			trace = append(trace, step{Op: "advance", Delta: d})
